@@ -233,7 +233,7 @@ Proof.
   - (* TParam *) intros txt. leaf_tokens.
   - (* TNeg *) intros t [IH _]. split; [|exact I]. intros c ts e R X N. cbn [rtoks to_expr nl] in R, X, N.
     dmatch R. dmatch X. inversion R; subst; inversion X; subst. clear R X.
-    destruct (operand_case SNeg t c _ _ IH E E0 N) as [-> A]. use_shape E0.
+    destruct (operand_case SNeg t _ _ _ IH E E0 N) as [-> A]. use_shape E0.
     cbn [is_cplx]. rewrite andb_false_r, par_false, pr_ENeg. cbn [atoms_ok]. split; [|exact A].
     f_equal. rewrite K, N0. apply neg_tokens. exact A.
   - (* TArith *) intros op l [IHl _] r [IHr _] alias. split; [|exact I]. intros c ts e R X N. cbn [rtoks to_expr nl] in R, X, N.
@@ -266,7 +266,7 @@ Proof.
     cbn [rtoks to_expr nl] in R, X, N. destruct cont; try discriminate R.
     dmatch R. dmatch X. inversion R; subst; inversion X; subst. clear R X. apply andb_prop in N as [Nt Ni].
     destruct (operand_case SInTerm t _ _ _ IHt E E1 Nt) as [-> At].
-    destruct (IHc _ _ _ E0 E2) as [-> Ai]; [rewrite subc_set_subq; exact Ni|].
+    destruct (IHc _ _ _ E0 E2) as [-> Ai]; [exact Ni|].
     use_shape E1.
     cbn [is_cplx]. rewrite andb_false_r, par_false, pr_EIn. cbn [atoms_ok]. rewrite At, Ai. split; [|reflexivity].
     rewrite K. unfold impl_pol. cbn [pol_b]. rewrite orb_false_r. reflexivity.
@@ -292,7 +292,7 @@ Proof.
     rewrite K. unfold impl_pol. cbn [pol_b]. rewrite orb_false_r. destruct (okind_e e0); reflexivity.
   - (* TNot *) intros t [IHt _] alias. split; [|exact I]. intros c ts e R X N. cbn [rtoks to_expr nl] in R, X, N.
     dmatch R. dmatch X. inversion R; subst; inversion X; subst. clear R X.
-    destruct (IHt _ _ _ E E0) as [-> A]; [rewrite subc_set_subc; exact N|]. use_shape E0. rewrite subc_set_subc.
+    destruct (IHt _ _ _ E E0) as [-> A]; [exact N|]. use_shape E0. rewrite subc_set_wa, subc_set_subc.
     cbn [is_cplx]. rewrite andb_false_r, par_false, pr_ENot. cbn [atoms_ok andb]. split; [|exact A].
     f_equal. f_equal. rewrite C. unfold impl_pol. cbn [pol_b]. rewrite orb_false_r. reflexivity.
   - (* TAll *) intros t _ alias. split; [|exact I]. intros c ts e R. discriminate R.
